@@ -22,6 +22,10 @@ int32  g_k, g_o;       /* ghost indices */
 SYMDEF g_old_k, g_old_o; /* usym[g_k], usym[g_o] on entry */
 int    g_old_len, g_new_len; /* strlen of the current / the new name */
 int    g_old_hsz;
+/* VSsetfields: what the specification-level lookup expects for ghost field g_k, and the true total */
+int32  g_exp_isize, g_exp_total;
+int16  g_exp_type;
+uint16 g_exp_order;
 char   g_old_c; /* character at ghost position g_o of the current name */
 
 /* ---------------- stubs (callees outside the unit) ---------------- */
@@ -71,7 +75,7 @@ h4v_strdup(const char *s)
 #define strcmp(a, b)  h4v_strcmp(a, b)
 #define strdup(s)     h4v_strdup(s)
 #endif
-#if defined(H4V_CBMC) && defined(H4V_CEX) && defined(H4V_ABS_STR)
+#if defined(H4V_CBMC) && ((defined(H4V_CEX) && defined(H4V_ABS_STR)) || defined(H4V_SMALL_STR))
 /* counterexample mode: the harness builds names of at most NMLEN characters; for those these
    unrolled models are exact (cbmc's own strcmp/strdup models make the search run out of memory) */
 #ifndef NMLEN
@@ -218,6 +222,33 @@ int32 VSsetclass(int32 vkey, const char *vsclass)
     __CPROVER_ensures(__CPROVER_return_value == SUCCEED ==>
                       (g_vs->marked == TRUE && g_vs->new_h_sz == (g_old_len < g_new_len ? TRUE : g_old_hsz)))
     __CPROVER_ensures(__CPROVER_return_value == FAIL ==> (g_vs->vsclass[g_o] == g_old_c && g_vs->new_h_sz == g_old_hsz));
+
+/* ---- VSsetfields, write list of a new vdata (access 'w', no records, no fields yet) ---- */
+#define WL (g_vs->wlist)
+#define WL_ISZ(j) ((j) < WL.n ? (int32)WL.isize[j] : 0)
+int VSsetfields(int32 vkey, const char *fields)
+    __CPROVER_requires(ENV_WF && g_vs->access == 'w' && g_vs->nvertices == 0 && g_vs->wlist.n == 0)
+    __CPROVER_requires(g_vs->nusym >= 0 && (g_vs->nusym == 0) == (g_vs->usym == NULL))
+    __CPROVER_requires(g_scan_ret == FAIL || g_scan_ac >= 0)
+    __CPROVER_assigns(g_vs->wlist, g_vs->marked, g_vs->new_h_sz, g_strdup_failed)
+    __CPROVER_ensures(__CPROVER_return_value == SUCCEED || __CPROVER_return_value == FAIL)
+    __CPROVER_ensures((fields == NULL || KEY_BAD || g_scan_ret == FAIL || g_scan_ac == 0) ==> __CPROVER_return_value == FAIL)
+    /* C20: more than VSFIELDMAX fields are refused */
+    __CPROVER_ensures(g_scan_ac > VSFIELDMAX ==> __CPROVER_return_value == FAIL)
+    /* C07: on success all requested fields are in the table, offsets are the running sum of the
+       field sizes and the record size is their total (bounded: at most 4 fields) */
+    __CPROVER_ensures(__CPROVER_return_value == SUCCEED ==> (WL.n == g_scan_ac && WL.n <= 4))
+    __CPROVER_ensures((__CPROVER_return_value == SUCCEED && g_k >= 0 && g_k < WL.n) ==>
+                      (int32)WL.off[g_k] == (g_k > 0 ? WL_ISZ(0) : 0) + (g_k > 1 ? WL_ISZ(1) : 0) + (g_k > 2 ? WL_ISZ(2) : 0))
+    __CPROVER_ensures(__CPROVER_return_value == SUCCEED ==>
+                      (int32)WL.ivsize == WL_ISZ(0) + WL_ISZ(1) + WL_ISZ(2) + WL_ISZ(3))
+    __CPROVER_ensures((__CPROVER_return_value == SUCCEED && g_k >= 0 && g_k < WL.n) ==>
+                      ((int32)WL.isize[g_k] == g_exp_isize && WL.type[g_k] == g_exp_type && WL.order[g_k] == g_exp_order &&
+                       WL.name[g_k] != NULL))
+    /* C20: a record size that does not fit the 16-bit header field is refused, never wrapped */
+    __CPROVER_ensures(g_exp_total > MAX_FIELD_SIZE ==> __CPROVER_return_value == FAIL)
+    /* C20: after a refused request the vdata is as before (no half-built field list) */
+    __CPROVER_ensures(__CPROVER_return_value == FAIL ==> WL.n == 0);
 
 #ifdef H4V_NATIVE
 #include "h4v_native_wrap.h"
@@ -395,4 +426,96 @@ h_VSsetclass(void)
     H4V_COVER(r == SUCCEED && g_new_len < VSNAMELENMAX && g_new_len > g_old_len, "VSsetclass longer name");
     H4V_COVER(r == FAIL, "VSsetclass refuses");
     H4V_CANARY("VSsetclass end");
+}
+
+/* ---- VSsetfields (bounded): <= 4 requested fields, <= 3 user symbols, names <= NMLEN chars ---- */
+static const char *const spec_rs_name[9] = {"PX", "PY", "PZ", "IX", "IY", "IZ", "NX", "NY", "NZ"};
+static int
+spec_streq(const char *a, const char *b)
+{
+    for (int i = 0; i <= NMLEN; i++) {
+        if (a[i] != b[i])
+            return 0;
+        if (a[i] == 0)
+            return 1;
+    }
+    return 1;
+}
+/* specification-level lookup: first user symbol of that name, else the reserved symbol (4-byte
+   float32/int32, order 1); returns the field size or -1 */
+static int32
+spec_lookup(VDATA *vs, const char *tok, int16 *type, uint16 *order)
+{
+    for (int j = 0; j < 3; j++)
+        if (j < vs->nusym && spec_streq(tok, vs->usym[j].name)) {
+            *type  = vs->usym[j].type;
+            *order = vs->usym[j].order;
+            return (int32)vs->usym[j].order * (int32)vs->usym[j].isize;
+        }
+    for (int j = 0; j < 9; j++)
+        if (spec_streq(tok, spec_rs_name[j])) {
+            *type  = (j >= 3 && j < 6) ? DFNT_INT32 : DFNT_FLOAT32;
+            *order = 1;
+            return 4;
+        }
+    return -1;
+}
+
+void
+h_VSsetfields_new(void)
+{
+    VDATA *vs = mk_env();
+    H4V_ND(int16, nusym);
+    H4V_ND(int32, scan_ret);
+    H4V_ND(int32, scan_ac);
+    H4V_ND(int, fields_null);
+    H4V_ASSUME(nusym >= 0 && nusym <= 3);
+    H4V_ASSUME(scan_ret == FAIL || scan_ret == SUCCEED);
+    /* up to 4 tokens, or any count above the limit (the token vector is then never read) */
+    H4V_ASSUME((scan_ac >= 0 && scan_ac <= 4) || scan_ac > VSFIELDMAX);
+    g_scan_ret = scan_ret;
+    g_scan_ac  = scan_ac;
+    SYMDEF *usym = nusym ? malloc(3 * sizeof(SYMDEF)) : NULL;
+    H4V_ASSUME(nusym == 0 || usym != NULL);
+    H4V_ND_BUF(uint16, us_type, nusym, 3);
+    H4V_ND_BUF(uint16, us_isize, nusym, 3);
+    H4V_ND_BUF(uint16, us_order, nusym, 3);
+    H4V_ND_BUF(uint8, us_name, nusym *(NMLEN + 1), 3 * (NMLEN + 1));
+    for (int i = 0; i < 3; i++)
+        if (i < nusym) {
+            H4V_ASSUME(us_type[i] <= 32767);
+            /* what VSfdefine stores: a known type with its size, order in [1, MAX_ORDER] */
+            H4V_ASSUME(us_order[i] >= 1 && DFKNTsize(us_type[i]) == us_isize[i]);
+            us_name[i * (NMLEN + 1) + NMLEN] = 0;
+            usym[i].name                     = (char *)&us_name[i * (NMLEN + 1)];
+            usym[i].type                     = (int16)us_type[i];
+            usym[i].isize                    = us_isize[i];
+            usym[i].order                    = us_order[i];
+        }
+    mk_tokens(scan_ac, 4);
+    vs->nusym     = nusym;
+    vs->usym      = usym;
+    vs->access    = 'w';
+    vs->nvertices = 0;
+    /* expectations of the specification-level lookup */
+    g_exp_total = 0;
+    g_exp_isize = -1;
+    for (int i = 0; i < 4; i++)
+        if (i < scan_ac) {
+            int16  t = 0;
+            uint16 o = 0;
+            int32  sz = spec_lookup(vs, g_av[i], &t, &o);
+            if (sz > 0)
+                g_exp_total += sz;
+            if (i == g_k) {
+                g_exp_isize = sz;
+                g_exp_type  = t;
+                g_exp_order = o;
+            }
+        }
+    int r = VSsetfields(7, fields_null ? NULL : "x");
+    H4V_COVER(r == SUCCEED && vs->wlist.n == 4, "VSsetfields sets 4 fields");
+    H4V_COVER(r == SUCCEED && vs->wlist.n == 2 && nusym == 2 && vs->wlist.type[0] == DFNT_FLOAT32, "VSsetfields mixes reserved and user fields");
+    H4V_COVER(r == FAIL && scan_ac == 300, "VSsetfields refuses 300 fields");
+    H4V_CANARY("VSsetfields end");
 }
